@@ -172,6 +172,11 @@ def run_wav(case):
       if len(got) == 1 and _close_calls.get(id(fobj), 0) != before:
         return bad("wav:closed-early", "the file was closed before the stream was exhausted", 0, "closed")
     after = _close_calls.get(id(fobj), 0)
+    # the header attributes stay what they are while and after the samples are read
+    hdr2 = (ws.rate, ws.channels, ws.bits)
+    if hdr2 != (rate, channels, bits) or any(type(v) is not int for v in hdr2):
+      return bad("wav:header-after", "rate/channels/bits must still mirror the header once the stream is exhausted",
+                 (rate, channels, bits), [repr(v)[:60] for v in hdr2])
     # a file given by name: the operating-system file itself must be closed while the exhausted
     # stream object is still alive (not merely the wave reader object)
     still_open = route == "path" and open_fds_of(target)
@@ -220,7 +225,7 @@ def gen_chunks(run):
       for order in ORDERS:
         for size in (1, 2, 3, 4, 6, None):
           for n in range(0, run.pick(10, 14)):
-            for rot in (0, 3):
+            for rot in (0, 3, 1):
               for src in ("list", "gen"):
                 yield (strat, dfmt, order, size, n, rot, src)
     # a big chunk: sizes beyond 127 must work for every format
@@ -250,6 +255,8 @@ def one_chunks_call(strat, dfmt, order, size, n, rot, src):
   vals = FMT_VALUES[dfmt]
   seq = [vals[(i + rot) % len(vals)] for i in range(n)]
   pad = vals[(rot + 3) % len(vals)]
+  if rot == 1:
+    pad = 0.0 if dfmt in "fd" else 0       # a zero pad value (the default, for the float formats)
   eff = size
   saved = chunks.size
   try:
@@ -257,6 +264,8 @@ def one_chunks_call(strat, dfmt, order, size, n, rot, src):
       type(chunks).size = 5
       eff = 5
     kw = {"dfmt": dfmt, "padval": pad}
+    if rot == 1 and dfmt in "fd":
+      del kw["padval"]                       # documented default 0.
     if size is not None: kw["size"] = size
     if order is not None: kw["byte_order"] = order
     data = list(seq) if src == "list" else (v for v in seq)
